@@ -503,7 +503,7 @@ fn absorb(agg: &mut Agg, prop: &str, pname: &str, idx: u64, seed: u64, out: &Run
     }
     {
         let r = s.sh.reent.borrow();
-        for (k, v) in [("reentrant_forward_ops", r.fwd_on_children), ("reentrant_gradient_reads", r.read_grad), ("reentrant_clone_drop", r.clone_drop), ("nested_pass_inside_closure", r.nested_pass)] {
+        for (k, v) in [("reentrant_forward_ops", r.fwd_on_children), ("reentrant_gradient_reads", r.read_grad), ("reentrant_clone_drop", r.clone_drop), ("nested_pass_inside_closure", r.nested_pass), ("reentrant_debug_format", r.debug_format)] {
             *agg.probes.entry(k.to_string()).or_insert(0) += v;
             if v > 0 {
                 *agg.faults.entry("F11_reentrancy".to_string()).or_insert(0) += v;
@@ -870,11 +870,11 @@ pub fn replay_file(path: &str) -> i32 {
         eprintln!("harness error: replay was recorded on the {} build, this is the {} build", r.build, build_name());
         return 2;
     }
-    if r.monitor == "cross_build_int" {
+    if r.monitor == "cross_build_int" || r.monitor == "cross_build_structure" {
         for (i, e) in r.events.iter().enumerate() {
             println!("  t{:<3} {}", i, ev_compact(e));
         }
-        return match crate::c19::cross_replay(&r.events) {
+        return match crate::c19::cross_replay_mode(&r.events, r.monitor == "cross_build_structure") {
             Ok(Some(d)) => {
                 println!("{}", d);
                 println!("VIOLATION property=C19 replay={}", path);
@@ -1267,18 +1267,19 @@ pub fn check_c19_parent(tier: &str) -> i32 {
     let kf = load_findings();
     let mut nviol = 0;
     if let Some((pname, idx, rseed, trace, diff)) = cross.mismatches.first() {
-        let v = Violation { prop: "C19", monitor: "cross_build_int", class: "f64 and f32 builds disagree on an integer-data history".into(), event: 0, detail: diff.clone(), extra: serde_json::Value::Null };
+        let structural = pname.ends_with("~smooth");
+        let v = Violation { prop: "C19", monitor: if structural { "cross_build_structure" } else { "cross_build_int" }, class: "f64 and f32 builds disagree on an integer-data history".into(), event: 0, detail: diff.clone(), extra: serde_json::Value::Null };
         if let Some(k) = match_finding(&kf, &v) {
             println!("KNOWN-FINDING: property=C19 {} [{}]", k.what, k.id);
         } else {
             // minimise: the difference must persist
             let judge = |evs: &[Ev]| -> Vec<Violation> {
-                match crate::c19::cross_replay(evs) {
-                    Ok(Some(d)) => vec![Violation { prop: "C19", monitor: "cross_build_int", class: "f64 and f32 builds disagree on an integer-data history".into(), event: 0, detail: d, extra: serde_json::Value::Null }],
+                match crate::c19::cross_replay_mode(evs, structural) {
+                    Ok(Some(d)) => vec![Violation { prop: "C19", monitor: if structural { "cross_build_structure" } else { "cross_build_int" }, class: "f64 and f32 builds disagree on an integer-data history".into(), event: 0, detail: d, extra: serde_json::Value::Null }],
                     _ => vec![],
                 }
             };
-            let min = ddmin(&judge, trace, "C19", "cross_build_int", &kf, None, false);
+            let min = ddmin(&judge, trace, "C19", if structural { "cross_build_structure" } else { "cross_build_int" }, &kf, None, false);
             let mv = judge(&min).into_iter().next().unwrap_or(v.clone());
             let path = write_replay("C19", pname, *idx, *rseed, seed, Regime::Int, &min, &mv, "-cross");
             println!("violation [cross_build_int x{}] {}", cross.mismatches.len(), mv.detail);
@@ -1314,6 +1315,8 @@ pub fn check_c19_parent(tier: &str) -> i32 {
                 "events_compared": cross.compared_events,
                 "observations_compared": cross.compared_observations,
                 "mismatching_histories": cross.mismatches.len(),
+                "structural_histories_non_integer_data": cross.structural_runs,
+                "structural_histories_diverged_by_a_harness_guard": cross.structural_diverged_by_guard,
             },
             "runs_per_hour": if wall > 0.0 { ((n_eval + cross.runs) as f64 / wall * 3600.0) as u64 } else { 0 },
             "components": {"real": "corgi built with --features f32 (native half and cross-build half) and with default features (cross-build half)", "not_run": "blas feature set; the input spaces of C04-C07 under f32 (not applicable to this family)"},
